@@ -219,6 +219,8 @@ pub struct Pipe {
     /// kind `m`: a mesh shader + pixel shader pipeline (`graphics` is set as well; the uses are split between the two
     /// stages as for `g`)
     pub mesh: bool,
+    /// kind `v` / `p`: a graphics pipeline with a vertex shader only / a pixel shader only (`graphics` is set as well)
+    pub single: Option<char>,
 }
 
 #[derive(Clone, Debug, PartialEq)]
@@ -481,7 +483,7 @@ fn show_pipe(p: &Pipe) -> String {
         "{}:{}:{}{}{}:{}",
         p.name,
         p.dflt.map(|d| d.to_string()).unwrap_or_else(|| "-".into()),
-        if p.mesh { "m" } else if p.graphics { "g" } else { "c" },
+        if let Some(c) = p.single { if c == 'v' { "v" } else { "p" } } else if p.mesh { "m" } else if p.graphics { "g" } else { "c" },
         p.dspell,
         p.share.map(|k| format!("={}", k)).unwrap_or_default(),
         uses.join(".")
@@ -503,8 +505,9 @@ fn parse_pipe(s: &str) -> Option<Pipe> {
     Some(Pipe {
         name: f[0].to_string(),
         dflt: if f[1] == "-" { None } else { Some(f[1].parse().ok()?) },
-        graphics: match kind.chars().next() { Some('c') => false, Some('g') | Some('m') => true, _ => return None },
+        graphics: match kind.chars().next() { Some('c') => false, Some('g') | Some('m') | Some('v') | Some('p') => true, _ => return None },
         mesh: kind.starts_with('m'),
+        single: kind.chars().next().filter(|c| *c == 'v' || *c == 'p'),
         dspell: kind[1..].to_string(),
         share,
         uses: f[3].split('.').filter(|u| !u.is_empty()).map(|u| u.parse().ok()).collect::<Option<Vec<usize>>>()?,
@@ -816,7 +819,7 @@ pub fn source(p: &Prog) -> String {
     // a pipeline shares the entry points of an earlier pipeline of the same kind that has its own
     let owner = |k: usize| -> usize {
         match p.pipes[k].share {
-            Some(j) if j < k && p.pipes[j].share.is_none() && p.pipes[j].graphics == p.pipes[k].graphics && p.pipes[j].mesh == p.pipes[k].mesh => j,
+            Some(j) if j < k && p.pipes[j].share.is_none() && p.pipes[j].graphics == p.pipes[k].graphics && p.pipes[j].mesh == p.pipes[k].mesh && p.pipes[j].single == p.pipes[k].single => j,
             _ => k,
         }
     };
@@ -836,16 +839,21 @@ pub fn source(p: &Prog) -> String {
                 k, ps
             ));
         } else if pipe.graphics {
-            let vs: String = pipe.uses.iter().step_by(2).map(|u| use_stmt(*u)).collect();
-            let ps: String = pipe.uses.iter().skip(1).step_by(2).map(|u| use_stmt(*u)).collect();
-            s.push_str(&format!(
-                "void vs{}(uint vid : SV_VertexID, out float4 o_pos : SV_Position) {{\n{}    o_pos = float4(0, 0, 0, 1);\n}}\n",
-                k, vs
-            ));
-            s.push_str(&format!(
-                "float4 ps{}(float4 i_pos : SV_Position) : SV_Target0 {{\n{}    return float4(0, 0, 0, 0);\n}}\n",
-                k, ps
-            ));
+            let all: String = pipe.uses.iter().map(|u| use_stmt(*u)).collect();
+            let vs: String = if pipe.single.is_some() { all.clone() } else { pipe.uses.iter().step_by(2).map(|u| use_stmt(*u)).collect() };
+            let ps: String = if pipe.single.is_some() { all } else { pipe.uses.iter().skip(1).step_by(2).map(|u| use_stmt(*u)).collect() };
+            if pipe.single != Some('p') {
+                s.push_str(&format!(
+                    "void vs{}(uint vid : SV_VertexID, out float4 o_pos : SV_Position) {{\n{}    o_pos = float4(0, 0, 0, 1);\n}}\n",
+                    k, vs
+                ));
+            }
+            if pipe.single != Some('v') {
+                s.push_str(&format!(
+                    "float4 ps{}(float4 i_pos : SV_Position) : SV_Target0 {{\n{}    return float4(0, 0, 0, 0);\n}}\n",
+                    k, ps
+                ));
+            }
         } else {
             let cs: String = pipe.uses.iter().map(|u| use_stmt(*u)).collect();
             s.push_str(&format!(
@@ -877,6 +885,10 @@ pub fn source(p: &Prog) -> String {
         let k = owner(k);
         if pipe.graphics && pipe.mesh {
             s.push_str(&format!("    MeshShader = ms{};\n    PixelShader = ps{};\n", k, k));
+        } else if pipe.single == Some('v') {
+            s.push_str(&format!("    VertexShader = vs{};\n", k));
+        } else if pipe.single == Some('p') {
+            s.push_str(&format!("    PixelShader = ps{};\n", k));
         } else if pipe.graphics {
             s.push_str(&format!("    VertexShader = vs{};\n    PixelShader = ps{};\n", k, k));
         } else {
@@ -1634,7 +1646,8 @@ fn gen_pipes(rng: &mut Rng, nres: usize, min_pipes: usize) -> Vec<Pipe> {
         // a file with a mesh entry point: every pipeline is mesh + pixel (the Metal exporter refuses to build another
         // kind of pipeline from a file that calls SetMeshOutputCounts: InvalidPipelineForMeshIntrinsic)
         let graphics = all_mesh || rng.chance(1, 3);
-        let mut pipe = Pipe { name, dflt, graphics, uses, share: None, dspell, mesh: all_mesh };
+        let single = if graphics && !all_mesh && rng.chance(1, 4) { Some(*rng.pick(&['v', 'p'])) } else { None };
+        let mut pipe = Pipe { name, dflt, graphics, uses, share: None, dspell, mesh: all_mesh, single };
         // now and then the same entry points as an earlier pipeline (with, mostly, another default group)
         if k > 0 && rng.chance(1, 4) {
             let j = rng.below(k as u64) as usize;
@@ -1642,6 +1655,7 @@ fn gen_pipes(rng: &mut Rng, nres: usize, min_pipes: usize) -> Vec<Pipe> {
             if earlier.share.is_none() {
                 pipe.graphics = earlier.graphics;
                 pipe.mesh = earlier.mesh;
+                pipe.single = earlier.single;
                 pipe.uses = Vec::new();
                 pipe.share = Some(j);
             }
@@ -1739,8 +1753,8 @@ pub fn matrix_progs(rng: &mut Rng) -> Vec<Prog> {
             normalise(&mut res);
             let n = res.len();
             let pipes = vec![
-                Pipe { name: "P0".into(), dflt: Some(d0), graphics: false, uses: (0..n).collect(), share: None, dspell: String::new(), mesh: false },
-                Pipe { name: "P1".into(), dflt: if d1 == 0 && rng.chance(1, 2) { None } else { Some(d1) }, graphics: rng.chance(1, 3), uses: (0..n).filter(|_| rng.chance(1, 2)).collect(), share: None, dspell: String::new(), mesh: false },
+                Pipe { name: "P0".into(), dflt: Some(d0), graphics: false, uses: (0..n).collect(), share: None, dspell: String::new(), mesh: false, single: None },
+                Pipe { name: "P1".into(), dflt: if d1 == 0 && rng.chance(1, 2) { None } else { Some(d1) }, graphics: rng.chance(1, 3), uses: (0..n).filter(|_| rng.chance(1, 2)).collect(), share: None, dspell: String::new(), mesh: false, single: None },
             ];
             v.push(Prog { res, pipes });
         }
@@ -1834,8 +1848,8 @@ pub fn spelling_progs(rng: &mut Rng, all_kinds: bool) -> Vec<Prog> {
             let n = res.len();
             let d0 = rng.below(3) as u32;
             let pipes = vec![
-                Pipe { name: "P0".into(), dflt: Some(d0), graphics: false, uses: (0..n).collect(), share: None, dspell: String::new(), mesh: false },
-                Pipe { name: "P1".into(), dflt: Some((d0 + 1) % 3), graphics: rng.chance(1, 3), uses: (0..n).filter(|_| rng.chance(1, 2)).collect(), share: None, dspell: String::new(), mesh: false },
+                Pipe { name: "P0".into(), dflt: Some(d0), graphics: false, uses: (0..n).collect(), share: None, dspell: String::new(), mesh: false, single: None },
+                Pipe { name: "P1".into(), dflt: Some((d0 + 1) % 3), graphics: rng.chance(1, 3), uses: (0..n).filter(|_| rng.chance(1, 2)).collect(), share: None, dspell: String::new(), mesh: false, single: None },
             ];
             v.push(Prog { res, pipes });
         }
@@ -1850,7 +1864,7 @@ pub fn run_prog(p: &Prog, rng: &mut Rng, out: &mut Out, hist: &mut Hist) {
         hist.add("e2e:shared-entry-points");
     }
     for x in &p.pipes {
-        hist.add(if x.mesh { "e2e:pipe:mesh+pixel" } else if x.graphics { "e2e:pipe:vertex+pixel" } else { "e2e:pipe:compute" });
+        hist.add(if x.single.is_some() { "e2e:pipe:single-graphics-stage" } else if x.mesh { "e2e:pipe:mesh+pixel" } else if x.graphics { "e2e:pipe:vertex+pixel" } else { "e2e:pipe:compute" });
         if !x.dspell.is_empty() && x.dflt.is_some() {
             hist.add("e2e:pipe:default-group-spelled-otherwise");
         }
